@@ -129,6 +129,11 @@ def _shape(rng, d, k, tier):
         s = [5] * (d - 1) + [int(rng.integers(5, 12))]
         rng.shuffle(s)
         return tuple(s)
+    if k == 1:
+        # one long axis (34..70 cells), thin other axes: slab-wise / cache-blocked wrappers have seams at 32, 64, ...
+        s = [int(x) for x in rng.integers(5, 8, size=d)]
+        s[int(rng.integers(d))] = int(rng.integers(34, 71))
+        return tuple(s)
     return util.shape2d(rng, 5, hi) if d == 2 else util.shape3d(rng, 5, hi)
 
 
@@ -149,6 +154,9 @@ class _Ctx:
     def note_shape(self, shape):
         self.rec.count("shapes_first_axis_longer_than_x" if shape[0] > shape[-1] else "shapes_x_longest_or_equal")
 
+    def fieldcopy(self, f0, g):
+        return f0.copy()
+
     def twice(self, call, make_args, what, meta):
         """run the time-step kernel twice from the same input with different buffer garbage"""
         outs = []
@@ -165,6 +173,27 @@ class _Ctx:
             return None
         self.rec.count("garbage_buffer_pairs_bitwise")
         self.rec.count("calls_on_reused_scratch_object", 2)
+        # every third case: a third execution in which the field to be advanced is a NON-contiguous view of the same values (halo
+        # interior of a padded allocation, every-second-element view, column-major).  The step must land in the caller's array
+        # whatever its strides.  Compared with the first execution at the noise floor, NOT bitwise: for non-unit strides the
+        # compiler runs another version of the -Ofast loop (measured: last-bit differences in float32 on the unchanged tree).
+        self._ntw = getattr(self, "_ntw", 0) + 1
+        if self._ntw % 3 == 0:
+            field, kw = make_args(0)
+            start = np.array(field, copy=True)
+            view = util.noncontiguous_copy(self.rng, field)
+            try:
+                call(view, **kw)
+            except Exception as e:
+                self.rec.violation(f"{what}-raises", f"non-contiguous field view: {type(e).__name__}: {e} {meta}", {"meta": meta})
+                return None
+            self.rec.count("fields_advanced_in_noncontiguous_views")
+            scale = util.maxabs(start) + util.maxabs(outs[0]) + util.maxabs(np.asarray(outs[0], np.float64) - np.asarray(start, np.float64))
+            r = util.err_over_tol(view, outs[0], 64 * self.eps * scale + 1e-300)
+            self.rec.stat("noncontiguous_view_vs_contiguous", r)
+            if r > 1:
+                self.rec.violation(f"{what}-differs-for-noncontiguous-view", f"advancing a non-contiguous view of the same field gives another result (err/tol={r:.3g}) {meta}", {"meta": meta})
+                return None
         return outs[0]
 
 
@@ -207,7 +236,7 @@ def _run_diffusion(ctx, d):
                 def args(g):
                     scratch[...] = _garbage(rng, shape, real_t, g)
                     kw = {"diffusion_flux": scratch, "nu_dt_by_dx2": ctx.scalar(pref, g)}
-                    return f0.copy(), kw
+                    return ctx.fieldcopy(f0, g), kw
 
                 got = ctx.twice((lambda f, **kw: step(field=f, **kw)) if variant == "scalar" else (lambda f, **kw: step(vector_field=f, **kw)), args, "diffusion-euler", meta)
                 if got is None:
@@ -258,7 +287,7 @@ def _run_advection(ctx, d):
                 def args(g):
                     scratch[...] = _garbage(rng, shape, real_t, g)
                     kw = {"advection_flux": scratch, "velocity": vel, "dt_by_dx": ctx.scalar(dtdx, g)}
-                    return f0.copy(), kw
+                    return ctx.fieldcopy(f0, g), kw
 
                 got = ctx.twice((lambda f, **kw: step(field=f, **kw)) if variant == "scalar" else (lambda f, **kw: step(vector_field=f, **kw)), args, "advection-euler", meta)
                 if got is None:
@@ -340,7 +369,7 @@ def _run_stretching(ctx, scheme):
                 mid[...] = _garbage(rng, mid.shape, real_t, g)
             scratch[...] = _garbage(rng, (3, *shape), real_t, g)
             kw = {"velocity_field": vel, "vorticity_stretching_flux_field": scratch, "dt_by_2_dx": ctx.scalar(h, g)}
-            return w0.copy(), kw
+            return ctx.fieldcopy(w0, g), kw
 
         got = ctx.twice(lambda f, **kw: kern(vorticity_field=f, **kw), args, f"stretching-{scheme}", meta)
         if got is None:
